@@ -18,6 +18,16 @@ from . import common
 
 ID = 'C16'
 LEVEL = 'exploration'
+# scenario variants and fault kinds mixed into the seeded part (reported in
+# the evidence; DESIGN 14.6 says where each came from)
+VARIANTS = [
+    "enumerated histories + directed sweep",
+    "hand-over stress with lingering callbacks",
+    "stall / compressed / encrypted servers",
+    "status result handlers that reuse the object",
+    "write op (queued packet in play)",
+    "option writes logged as stale actions"
+]
 RUNS = {'quick': 14000, 'thorough': 500000}
 WALL_CAP = {'quick': 200, 'thorough': 3300}
 
